@@ -29,4 +29,11 @@ OBLIGATIONS = [
        unwindset={'put_task_slot.*': 20, 'get_task_slot.*': 18, 'make_task_pool.*': 5, 'memset.*': 4}),
     ob('table_growth', 1, 4, defs=['NOP=1', 'RESIZE=7', 'TABMAX=256'], bounds='two oids sharing their low 4..7 bits: table grows to 32..256 slots', timeout=3400, mem_gb=40, tiers=('thorough',),
        unwindset={'put_task_slot.*': 20, 'get_task_slot.*': 18, 'make_task_pool.*': 5, 'memset.*': 4}),
+    dict(name='listing_is_the_callers', src='h_http.c', defs=[], units=['src/task.c'], incl=['src/echsd.c'], replay_units='all', replay_extra_units=['src/logger.c'],
+         unwind=6, unwindset={'sym_load.*': 8, 'strlen.*': 4}, solver='cadical', timeout=900, mem_gb=12, object_bits=12, checks=['--bounds-check', '--pointer-check'],
+         replace_calls={'echs_http_send_sched': 'rec_send_sched', 'ndtr_t_NEDTRIE_FIND': 'rec_trie_find', 'add_chkpnt': 'env_add_chkpnt'},
+         allow_nobody=['echs_log', 'echs_errlog', 'lseek', 'dt_strf', 'free_strlst'],
+         enc=['cmd_http', 'echs_task_owner', 'echs_task_owned_by_p'], sym='peer uid, requested uid (any or none), owners of the two queued tasks, /queue or /sched',
+         bounds='two queued tasks, requests without a tuid= parameter list', outside='the tuid= parameter path; socket credentials; rendering of the bodies',
+         stubs=['echs_http_send_sched replaced by a recorder', 'snprintf/fstatat/openat/write/sendfile stand-ins', 'trie look-up behind chkpntedp() cut']),
 ]
